@@ -230,6 +230,18 @@ fn oracle(s: &ProgScene<X>, t: &Trace) -> Vec<Violation> {
 const GIVE_UP: u8 = 50;
 
 thread_local! {
+    /// no client owns the actor (see make_case_s)
+    static DETACHED: std::cell::Cell<bool> = const { std::cell::Cell::new(false) };
+}
+
+fn with_detached<T>(f: impl FnOnce() -> T) -> T {
+    DETACHED.with(|s| s.set(true));
+    let r = f();
+    DETACHED.with(|s| s.set(false));
+    r
+}
+
+thread_local! {
     /// handlers wait their duration in one-tick pieces (see `Work::split`)
     static SPLIT: std::cell::Cell<bool> = const { std::cell::Cell::new(false) };
 }
@@ -285,14 +297,20 @@ fn make_case_s(timeout: Option<u32>, fail: bool, durs: &[u32], mailbox: Mailbox,
     }
     // the owner waits for the end: join (fail config) or after a long sleep stop + join
     let total: u32 = durs.iter().sum::<u32>() + 3 + if layout >= 2 && layout != GIVE_UP { layout as u32 * durs.len() as u32 } else { 0 };
-    clients.push(ClientSpec { init: vec![HInit::Own], ops: vec![Op::Sleep(total), Op::Consume(H::Own(0))] });
+    if DETACHED.with(|d| d.get()) {
+        // nobody owns the actor (it is built through the detached terminal `spawn()`): the end
+        // comes by stop + await through a plain address
+        clients.push(ClientSpec { init: vec![HInit::Addr], ops: vec![Op::Sleep(total), Op::Stop(H::Addr(0)), Op::Await(H::Addr(0))] });
+    } else {
+        clients.push(ClientSpec { init: vec![HInit::Own], ops: vec![Op::Sleep(total), Op::Consume(H::Own(0))] });
+    }
     if fail {
         clients.push(ClientSpec { init: vec![HInit::Addr], ops: vec![Op::Sleep(total), Op::Halt(H::Addr(0))] });
     }
     let desc = format!(
         "timeout{}{} t={timeout:?} fail={fail} durations={durs:?} mailbox={} layout={layout} strategy={strat:?}",
         crate::progscene::variant_tag(),
-        if SPLIT.with(|s| s.get()) { " [handlers wait in one-tick pieces]" } else { "" },
+        if SPLIT.with(|s| s.get()) { " [handlers wait in one-tick pieces]" } else if DETACHED.with(|d| d.get()) { " [detached terminal spawn()]" } else { "" },
         mailbox.name()
     );
     Case {
@@ -412,6 +430,10 @@ fn cases(tier: Tier) -> Vec<Case> {
     // (every wake-up is one more select! poll, i.e. one more explored tie-break: short limits only)
     let short = |d: &str| (d.contains("t=Some(1)") || d.contains("t=Some(2)")) && (tier == Tier::Thorough || d.matches(',').count() <= 1);
     v.extend(with_split(|| base_cases(tier)).into_iter().filter(|c| short(&c.desc)));
+    // the builder's other terminal: the same limits apply to an actor that nobody owns (every
+    // third case; thorough: all)
+    let step = if tier == Tier::Thorough { 1 } else { 3 };
+    v.extend(with_detached(|| base_cases(tier)).into_iter().enumerate().filter(|(i, c)| i % step == 0 && !c.desc.contains("t=None")).map(|(_, c)| c));
     for order in 1..=3u8 {
         let var = crate::progscene::Variant { builder_order: order, ..Default::default() };
         let extra = crate::progscene::with_variant(var, || base_cases(tier));
